@@ -16,8 +16,8 @@ pub fn def() -> CheckDef {
         rule: "case = a model with 2..5 interrupts/messages observed through an acknowledging channel x per-key ack policy (now / never / later:<n> / twice) x which interrupts the client answers and at which tick x max_message_retry_times in 1..5 x tick_interval_secs in {1,15} x stalled ticks x redo / clear operations at seeded ticks x restart of the engine at seeded quiescent points x store backend (in-memory with collection transplant, SQLite on a per-run file) x seeded schedule. RefMsgStore per message id: the row is created before the first handler call, redeliveries carry the same id and content with retry counts 1,2,.. up to the maximum, then status error and silence until redo, no delivery from a tick that started after the ack / the closing action, statuses never move back. non-trivial = at least one redelivery happened and at least one message was acked or closed; distinct = distinct (scenario hash, schedule hash, fault hash)",
         level: "exploration",
         assumptions: &["monotone simulated clock", "a redelivery that was emitted by a tick before the ack returned is in flight and may still arrive", "fewer than 300 stored messages (the tick looks at 300 per round)", "no storage errors are injected"],
-        probes: &["probe.redelivery", "probe.acked", "probe.closed_by_action", "probe.reached_max_retries", "probe.redo", "probe.clear", "probe.restart", "probe.sqlite", "probe.ack_twice", "probe.late_ack"],
-        quick_cases: 1500,
+        probes: &["probe.redelivery", "probe.acked", "probe.closed_by_action", "probe.reached_max_retries", "probe.redo", "probe.clear", "probe.restart", "probe.sqlite", "probe.ack_twice", "probe.late_ack", "probe.refused_action_on_open_task"],
+        quick_cases: 4000,
         no_shrink: &[],
     }
 }
@@ -35,6 +35,8 @@ pub fn case(ctx: &mut CaseCtx) -> CaseOut {
     let stall: Option<(usize, i64)> = if gr.below(5) == 0 { Some((1 + gr.below(n_ticks as u64 - 1) as usize, gr.range(2, 4) * tick * 1_000_000)) } else { None };
     // which interrupts are answered, and after which tick
     let mut answer_after: BTreeMap<String, usize> = BTreeMap::new();
+    // an action that the engine refuses (error without ecode) on a still open interrupt, at a seeded tick
+    let mut refused_at: BTreeMap<String, usize> = BTreeMap::new();
     let mut acts = vec![];
     let mut ack_by_key = BTreeMap::new();
     for i in 0..n_acts {
@@ -43,6 +45,9 @@ pub fn case(ctx: &mut CaseCtx) -> CaseOut {
         acts.push(MAct { id: format!("a{}", i), key: key.clone(), kind: ActKind::Irq, ..Default::default() });
         if gr.below(2) == 0 {
             answer_after.insert(key.clone(), gr.below(n_ticks as u64) as usize);
+        }
+        if gr.below(3) == 0 {
+            refused_at.insert(key.clone(), gr.below(n_ticks as u64) as usize);
         }
         let pol = match gr.below(6) {
             0 => "now".to_string(),
@@ -79,7 +84,9 @@ pub fn case(ctx: &mut CaseCtx) -> CaseOut {
     let restart_at = sc.faults.iter().find(|f| f.kind == "restart").map(|f| f.at_q);
     let stall = sc.faults.iter().find(|f| f.kind == "jump").map(|f| (f.at_q, f.arg));
     let ans = answer_after.clone();
+    let refused = refused_at.clone();
     let rec = ctx.run_with(&sc, move |w| {
+        let mut refused_done: std::collections::BTreeSet<String> = Default::default();
         w.rec.lock().unwrap().record_store_calls = true;
         if let Err(e) = w.deploy_all() {
             w.rec.lock().unwrap().rec.panics.push(format!("deploy: {e}"));
@@ -111,6 +118,17 @@ pub fn case(ctx: &mut CaseCtx) -> CaseOut {
                 }
                 out
             };
+            // refused actions on interrupts that stay open
+            let to_refuse: Vec<crate::world::OpenAct> = {
+                let g = w.rec.lock().unwrap();
+                g.open.iter().filter(|o| refused.get(&o.key).map(|t| *t <= tick_no).unwrap_or(false) && !refused_done.contains(&o.key)).cloned().collect()
+            };
+            for oa in to_refuse {
+                refused_done.insert(oa.key.clone());
+                let engine = w.engine().clone();
+                // `error` without an error code is refused inside the task's update
+                crate::world::do_action(&engine, &w.rec, &oa.pid, &oa.tid, "error", &serde_json::Map::new(), &oa.key, "client", true);
+            }
             if !due.is_empty() {
                 for oa in due {
                     let engine = w.engine().clone();
@@ -217,6 +235,9 @@ pub fn case(ctx: &mut CaseCtx) -> CaseOut {
                 ctx.count("probe.late_ack", 1);
             }
         }
+        if rec.actions.iter().any(|a| !a.ok && a.pid == first.pid && a.tid == first.tid && a.seq0 > first.seq) {
+            ctx.count("probe.refused_action_on_open_task", 1);
+        }
         if close_seq.is_some() {
             ctx.count("probe.closed_by_action", 1);
             any_closed = true;
@@ -281,6 +302,12 @@ pub fn case(ctx: &mut CaseCtx) -> CaseOut {
             };
             if bad {
                 v.push(Violation::new("C09", "status_moved_back", json!({"from": prev_status, "to": st, "store": store}), format!("message {} ({}): stored status went {} -> {} at quiescent point {}", id, first.key, prev_status, st, q.idx)));
+                break;
+            }
+            // closed without a cause: neither acknowledged nor acted on (successfully), yet not `created` any more
+            if (st == "completed" || st == "acked") && ack_seq.map(|a| a > q.seq).unwrap_or(true) && close_seq.map(|c| c > q.seq).unwrap_or(true) {
+                let refused_action = rec.actions.iter().any(|a| !a.ok && a.pid == first.pid && a.tid == first.tid && a.seq1 <= q.seq);
+                v.push(Violation::new("C09", "closed_without_cause", json!({"status": st, "after_refused_action": refused_action, "store": store}), format!("message {} ({}): stored status is {} at quiescent point {} although it was neither acknowledged nor closed by a successful action on its task", id, first.key, st, q.idx)));
                 break;
             }
             // acknowledged => the row says so at the next quiescent point
